@@ -402,6 +402,8 @@ pub enum Intrusion {
     /// a radio event with a frame nobody can accept (random bytes)
     StrayRx(Vec<u8>),
     StrayNothing,
+    /// the application reads the session in the middle of the transaction (to persist it)
+    SessionSnapshot,
 }
 
 impl Script {
@@ -564,6 +566,15 @@ impl<const PW: u8, const G: i8> Dev<PW, G> {
         match &self.dev {
             AnyDev::Nb(d) => d.verif_snapshot(),
             AnyDev::As(d) => d.verif_snapshot(),
+        }
+    }
+
+    /// The session as its derived Debug form shows it (every field, also those a serialised form
+    /// might leave out).
+    pub fn session_debug(&mut self) -> Option<String> {
+        match &mut self.dev {
+            AnyDev::Nb(d) => d.get_session().map(|s| format!("{:?}", s)),
+            AnyDev::As(d) => d.get_session().map(|s| format!("{:?}", s)),
         }
     }
 
@@ -809,7 +820,18 @@ fn nb_transact<const PW: u8, const G: i8>(d: &mut NbDev<PW, G>, jm: JoinMode, ac
             if *at != steps || !running || (sending && matches!(k, Intrusion::StrayRx(_) | Intrusion::StrayNothing)) {
                 continue;
             }
+            if matches!(k, Intrusion::SessionSnapshot) {
+                notes.push(match d.get_session() {
+                    Some(sess) => match serde_json::to_string(sess) {
+                        Ok(t) => format!("snap@{}:{}", steps, t),
+                        Err(_) => format!("snap@{}:UNSERIALISABLE", steps),
+                    },
+                    None => format!("snap@{}:NONE", steps),
+                });
+                continue;
+            }
             let r = match k {
+                Intrusion::SessionSnapshot => unreachable!(),
                 Intrusion::Send => d.send(&[0x99, 0x98], 7, false),
                 Intrusion::SendConfirmed => d.send(&[0x97], 8, true),
                 Intrusion::Join => d.join(jm),
